@@ -396,23 +396,15 @@ def run(ctx):
                tuple(p['stack']), p['api'], p['bytes'] == 0)
         first = rep not in seen
         seen.add(rep)
-        if quick and not first:
-            continue
         for c in classes:
-            performs = [1] if p['collective'] else ([1, 0] if (not quick or c == 'NO_SPACE') else [1])
+            base = c in CLASSES_QUICK
+            # quick: one position per distinct (nprocs, safe mode, root/non-root, call stack, API, zero-length)
+            # thorough: every position for the two base classes, the representatives for the other classes
+            if not first and (quick or not base):
+                continue
+            performs = [1] if p['collective'] else ([1, 0] if (c == 'NO_SPACE' or (not quick and base)) else [1])
             for pf in performs:
                 plan.append((p, dict(rank=p['rank'], index=p['index'], cls=c, perform=pf)))
-    if quick:
-        # bounded wall time: keep every distinct (stack, class); thin out the rest deterministically
-        budget = 900
-        if len(plan) > budget:
-            keep, rest, s2 = [], [], set()
-            for it in plan:
-                k = (tuple(it[0]['stack']), it[1]['cls'])
-                (keep if k not in s2 else rest).append(it)
-                s2.add(k)
-            ctx.rng.shuffle(rest)
-            plan = keep + rest[:max(0, budget - len(keep))]
 
     def inject(it):
         p, f = it
@@ -420,8 +412,15 @@ def run(ctx):
         # the whole unfaulted program needs on this machine now; the outer timeout is only a backstop
         alarm = int(max(4, 3 * base_wall[p['ci']]))
         cfg = CONFIGS[p['ci']]
-        return run_harness(exe, wd, (cfg[0], cfg[1], _m(cfg[2], {'C11_API_ALARM': str(alarm)})), f,
-                           timeout=60 + 20 * alarm)
+        r = run_harness(exe, wd, (cfg[0], cfg[1], _m(cfg[2], {'C11_API_ALARM': str(alarm)})), f,
+                        timeout=60 + 20 * alarm)
+        if r.rc == -9 or any(l['hang'] is not None for l in r.logs):
+            # a hang is an observation only if it is still one with three times the patience
+            r2 = run_harness(exe, wd, (cfg[0], cfg[1], _m(cfg[2], {'C11_API_ALARM': str(3 * alarm)})), f,
+                             timeout=60 + 60 * alarm)
+            r2.first_hang = True
+            return r2
+        return r
     with ThreadPoolExecutor(max_workers=jobs) as ex:
         results = list(ex.map(inject, plan))
 
@@ -438,16 +437,19 @@ def run(ctx):
 
     # ---------------- evaluate
     stats = dict(census_runs=len(census), positions=len(positions), injections=len(plan), oracle_pass=0, dropped=0,
-                 blocked=0, later_hang=0, masked_by_argument_error=0, prediction_checked=0, prediction_mismatch=0,
+                 blocked=0, later_hang=0, hang_not_confirmed=0, masked_by_argument_error=0, prediction_checked=0, prediction_mismatch=0,
                  prediction_singleton=0, not_injected=0, inconclusive_timeout=0, crashed=0, per_class={}, per_scenario={}, nprocs={})
     table = {}        # (io site id, class) -> dict(obs=set, model=...)
     viol = {}         # key -> (what, replay)
     corr_fail = []
+    later = []
     for (p, f), r in zip(plan, results):
         cfg = CONFIGS[p['ci']]
         case = dict(scenario=cfg[0], np=cfg[1], env=cfg[2], rank=f['rank'], index=f['index'], cls=f['cls'],
                     perform=f['perform'], mpi_call=p['fn'], api=p['api'], stack=p['stack'])
         lf = r.logs[f['rank']]
+        if getattr(r, 'first_hang', False) and r.rc != -9 and not any(l['hang'] is not None for l in r.logs):
+            stats['hang_not_confirmed'] += 1
         stats['per_class'][f['cls']] = stats['per_class'].get(f['cls'], 0) + 1
         stats['per_scenario'][cfg[0]] = stats['per_scenario'].get(cfg[0], 0) + 1
         stats['nprocs'][str(cfg[1])] = stats['nprocs'].get(str(cfg[1]), 0) + 1
@@ -496,6 +498,8 @@ def run(ctx):
             # the return code of the faulted rank is still evaluated below
         elif hung or not all(l['done'] for l in r.logs):
             stats['later_hang'] += 1
+            later.append(dict(case, api_return=lf['api'][seq][1],
+                              hang_in_call=[l['hang'] for l in r.logs], rc=r.rc))
         name, ret, sts = lf['api'][seq]
         raw = lf['masked'].get(seq, ret)
         t['obs'].add(raw)
@@ -570,6 +574,8 @@ def run(ctx):
     ctx.cov['link_sites_total'] = len(tj['sites']) - len(all_io)
     ctx.cov['link_sites_reached'] = len(reached_links)
     ctx.cov['site_class_table'] = rows
+    ctx.cov['hang_in_a_later_call'] = later[:10]
+    ctx.cov['violation_keys'] = sorted(viol)
     ctx.cov['traces_validated_against_impl'] = stats['prediction_checked']
     ctx.cov['translator'] = dict(io_sites=len(all_io), link_sites=len(tj['sites']) - len(all_io), problems=tj.get('problems', []))
     ctx.cov['wall_breakdown_s'] = dict(total=round(time.time() - t_start, 1), proof=round(pr['wall'], 1))
